@@ -509,6 +509,9 @@ def replay(ob, repo):
     if 'C11.L5' in ob.get('lemma', ''):
         r = run_script('c10_native.py', {'msgs': [['request', 1]]}, repo, timeout=60)
         return bool(r.get('violates')), r
+    if 'C11.L6' in ob.get('lemma', ''):     # a failed unpickling (client gone during the control handshake), then a healthy client
+        r = run_script('c11_native.py', {'name': 'no_ctrl_connect'}, repo, timeout=200)
+        return bool(r.get('violates')), r
     if 'C18.L' in ob.get('text', ''):       # context table transitions / routing of worker requests by context id: the scenarios of the context helper
         r = run_script('c18_native.py', {'lemma': 'C18.L2'}, repo, timeout=150)
         return bool(r.get('violates')), r
